@@ -118,6 +118,7 @@ class FixedTalbot(InverseLaplaceTransform):
         # the caller doesn't monkey around with it between calling
         # this routine and calc_time_domain_solution()
         self.dps_orig = self.ctx.dps
+        self.prec_orig = self.ctx.prec
         self.ctx.dps = self.dps_goal
 
         # Abate & Valko rule of thumb for r parameter
@@ -208,7 +209,7 @@ class FixedTalbot(InverseLaplaceTransform):
         # setting dps back to value when calc_laplace_parameter was
         # called, unless flag is set.
         if not manual_prec:
-            self.ctx.dps = self.dps_orig
+            self.ctx.prec = self.prec_orig
 
         return result.real
 
@@ -267,6 +268,7 @@ class Stehfest(InverseLaplaceTransform):
         # hopefully the caller doesn't monkey around with it
         # between calling this routine and calc_time_domain_solution()
         self.dps_orig = self.ctx.dps
+        self.prec_orig = self.ctx.prec
         self.ctx.dps = self.dps_goal
 
         self.V = self._coeff()
@@ -340,7 +342,7 @@ class Stehfest(InverseLaplaceTransform):
 
         # setting dps back to value when calc_laplace_parameter was called
         if not manual_prec:
-            self.ctx.dps = self.dps_orig
+            self.ctx.prec = self.prec_orig
 
         # ignore any small imaginary part
         return result.real
@@ -416,6 +418,7 @@ class deHoog(InverseLaplaceTransform):
         # hopefully the caller doesn't monkey around with it
         # between calling this routine and calc_time_domain_solution()
         self.dps_orig = self.ctx.dps
+        self.prec_orig = self.ctx.prec
         self.ctx.dps = self.dps_goal
 
         # scaling factor (likely tun-able, but 2 is typical)
@@ -528,7 +531,7 @@ class deHoog(InverseLaplaceTransform):
 
         # setting dps back to value when calc_laplace_parameter was called
         if not manual_prec:
-            self.ctx.dps = self.dps_orig
+            self.ctx.prec = self.prec_orig
 
         return result
 
@@ -796,17 +799,21 @@ class LaplaceTransformInversionMethods(object):
         else:
             rule = rule(ctx)
 
-        # determine the vector of Laplace-space parameter
-        # needed for the requested method and desired time
-        rule.calc_laplace_parameter(t,**kwargs)
+        prec = ctx.prec
+        try:
+            # determine the vector of Laplace-space parameter
+            # needed for the requested method and desired time
+            rule.calc_laplace_parameter(t,**kwargs)
 
-        # compute the Laplace-space function evalutations
-        # at the required abscissa.
-        fp = [f(p) for p in rule.p]
+            # compute the Laplace-space function evalutations
+            # at the required abscissa.
+            fp = [f(p) for p in rule.p]
 
-        # compute the time-domain solution from the
-        # Laplace-space function evaluations
-        return rule.calc_time_domain_solution(fp,t)
+            # compute the time-domain solution from the
+            # Laplace-space function evaluations
+            return rule.calc_time_domain_solution(fp,t)
+        finally:
+            ctx.prec = prec
 
     # shortcuts for the above function for specific methods
     def invlaptalbot(ctx, *args, **kwargs):
